@@ -9,6 +9,8 @@ CONSTANTS
   HandlerSeqs <- A_HSeqs
   UpProgs <- A_UpProgs
   CRProg <- A_CR
+  Forms = {"fresh"}
+  Colls = {}
   QuitOn = TRUE
   QuitDeferred = TRUE
   DefCap = 1
@@ -25,4 +27,5 @@ PROPERTY FiredForever
 PROPERTY NeverEarly
 PROPERTY LifeLogged
 PROPERTY CROnce
+PROPERTY DepsFixed
 CHECK_DEADLOCK FALSE
